@@ -210,6 +210,15 @@ pub fn check_c16(c: &ZCase, acc: &mut Acc, record: bool) -> Verdict {
             other => return Verdict::Fail(format!("source {i}: read_compressed gave {:?} leaving {rest} bytes (content {} bytes, suffix {})", other.as_ref().map(|b| b.len()), d.len(), c.suffix.len())),
         }
     }
+    // ---- the frame written and read through a context that is inside a record: as a field of a version-0 record
+    // (straight to the output) and of an evolved record (the field's chunk is buffered and the header written first),
+    // between sibling fields and before data that follows the record
+    if let Err(e) = embedded_frames(&d, level, &v) {
+        return Verdict::Fail(format!("{e} (content {} bytes, level {})", d.len(), c.level));
+    }
+    if record {
+        acc.bump("frames_embedded_in_records", 2);
+    }
     // ---- faults
     match &c.fault {
         Fault::None => {}
@@ -280,6 +289,72 @@ pub fn check_c16(c: &ZCase, acc: &mut Acc, record: bool) -> Verdict {
         }
     }
     Verdict::Pass
+}
+
+/// a user codec that stores its bytes as a compressed block through the context it is handed
+struct ZBlob<'a>(&'a [u8], Compression);
+impl desert::BinarySerializer for ZBlob<'_> {
+    fn serialize<O: BinaryOutput>(&self, context: &mut SerializationContext<O>) -> desert::Result<()> {
+        context.write_compressed(self.0, self.1)
+    }
+}
+struct ZOwned(Vec<u8>);
+impl desert::BinaryDeserializer for ZOwned {
+    fn deserialize(context: &mut DeserializationContext<'_>) -> desert::Result<Self> {
+        Ok(ZOwned(context.read_compressed()?))
+    }
+}
+
+fn embedded_frames(d: &[u8], level: Compression, frame: &[u8]) -> Result<(), String> {
+    use desert::adt::{AdtDeserializer, AdtMetadata, AdtSerializer};
+    use desert::{BinaryDeserializer, BinarySerializer, Evolution};
+    let v0 = AdtMetadata::new(vec![Evolution::InitialVersion]);
+    let v2 = AdtMetadata::new(vec![Evolution::InitialVersion, Evolution::FieldAdded { name: "z".into() }, Evolution::FieldAdded { name: "t".into() }]);
+    let e = |x: desert::Error| format!("{x:?}");
+    for evolved in [false, true] {
+        let mut ctx = SerializationContext::new(Vec::new());
+        {
+            let mut ser = if evolved { AdtSerializer::new(&v2, &mut ctx) } else { AdtSerializer::new_v0(&v0, &mut ctx) };
+            ser.write_field("a", &0x1234u16).map_err(e)?;
+            ser.write_field("z", &ZBlob(d, level)).map_err(e)?;
+            ser.write_field("t", &0x77u8).map_err(e)?;
+            ser.finish().map_err(e)?;
+        }
+        BinarySerializer::serialize(&0xEEu8, &mut ctx).map_err(e)?;
+        let bytes = ctx.into_output();
+        // the layout the format prescribes, with the stand-alone frame as the field's bytes
+        let mut want = Vec::new();
+        if evolved {
+            want.push(2);
+            vmodel::refcodec::var_i32(2, &mut want);
+            vmodel::refcodec::var_i32(frame.len() as i32, &mut want);
+            vmodel::refcodec::var_i32(1, &mut want);
+        } else {
+            want.push(0);
+        }
+        want.extend_from_slice(&[0x12, 0x34]);
+        want.extend_from_slice(frame);
+        want.extend_from_slice(&[0x77, 0xEE]);
+        if bytes != want {
+            let at = bytes.iter().zip(&want).position(|(a, b)| a != b).unwrap_or(bytes.len().min(want.len()));
+            return Err(format!("a compressed block written as field of {} record is not laid out as header ++ chunks: {} bytes against {} expected, first difference at {at} (head {})", if evolved { "an evolved" } else { "a version-0" }, bytes.len(), want.len(), hex(&bytes[..bytes.len().min(16)])));
+        }
+        let mut dc = DeserializationContext::new(&bytes);
+        let stored = dc.read_u8().map_err(e)?;
+        let meta = if evolved { &v2 } else { &v0 };
+        let (a, z, t) = {
+            let mut de = if stored == 0 { AdtDeserializer::new_v0(meta, &mut dc).map_err(e)? } else { AdtDeserializer::new(meta, &mut dc, stored).map_err(e)? };
+            let a: u16 = de.read_field("a", None).map_err(e)?;
+            let z: ZOwned = de.read_field("z", None).map_err(e)?;
+            let t: u8 = de.read_field("t", None).map_err(e)?;
+            (a, z, t)
+        };
+        let after = <u8 as BinaryDeserializer>::deserialize(&mut dc).map_err(e)?;
+        if a != 0x1234 || z.0 != d || t != 0x77 || after != 0xEE || dc.read_u8().is_ok() {
+            return Err(format!("a compressed block read back as field of {} record: siblings {a:#x} {t:#x} {after:#x}, {} content bytes", if evolved { "an evolved" } else { "a version-0" }, z.0.len()));
+        }
+    }
+    Ok(())
 }
 
 fn model_var(data: &[u8], pos: &mut usize) -> Option<u32> {
